@@ -61,6 +61,16 @@ func c28GenSnapshot(rng *rand.Rand) metadata.ClusterMetadata {
 	}
 	nt := rng.Intn(7)
 	perm := rng.Perm(len(c28Names))
+	for i := 0; i < nt; i++ {
+		m.Topics = append(m.Topics, c28GenTopic(rng, c28Names[perm[i]], brokerIDs))
+	}
+	return m
+}
+
+// c28GenTopic generates one topic of a cluster metadata snapshot whose real
+// brokers are brokerIDs.
+func c28GenTopic(rng *rand.Rand, name string, brokerIDs []int32) kmsg.MetadataResponseTopic {
+	nb := len(brokerIDs)
 	pickNodes := func() []int32 {
 		n := 1 + rng.Intn(nb)
 		p := rng.Perm(nb)
@@ -70,52 +80,54 @@ func c28GenSnapshot(rng *rand.Rand) metadata.ClusterMetadata {
 		}
 		return out
 	}
-	for i := 0; i < nt; i++ {
-		t := kmsg.NewMetadataResponseTopic()
-		t.Topic = kmsg.StringPtr(c28Names[perm[i]])
-		if rng.Intn(3) > 0 {
-			rng.Read(t.TopicID[:])
-		} // else zero: the store derives an id from the name
-		t.IsInternal = rng.Intn(5) == 0
-		errored := rng.Intn(100) < 25
-		if errored {
-			t.ErrorCode = c28TopicErrs[rng.Intn(len(c28TopicErrs))]
-		}
-		np := rng.Intn(6)
-		if errored && rng.Intn(2) == 0 {
-			np = 0
-		}
-		for p := 0; p < np; p++ {
-			mp := kmsg.NewMetadataResponseTopicPartition()
-			mp.Partition = int32(p)
-			if rng.Intn(10) == 0 {
-				mp.Partition = int32(p*3 + 1) // sparse partition numbers
-			}
-			if rng.Intn(100) < 15 {
-				mp.ErrorCode = c28PartErrs[rng.Intn(len(c28PartErrs))]
-			}
-			mp.Leader = brokerIDs[rng.Intn(nb)]
-			if mp.ErrorCode != 0 && rng.Intn(2) == 0 {
-				mp.Leader = -1
-			}
-			switch rng.Intn(4) {
-			case 0:
-				mp.LeaderEpoch = -1
-			case 1:
-				mp.LeaderEpoch = 0
-			default:
-				mp.LeaderEpoch = int32(rng.Intn(100000))
-			}
-			mp.Replicas = pickNodes()
-			mp.ISR = pickNodes()
-			if rng.Intn(4) == 0 {
-				mp.OfflineReplicas = pickNodes()
-			}
-			t.Partitions = append(t.Partitions, mp)
-		}
-		m.Topics = append(m.Topics, t)
+	t := kmsg.NewMetadataResponseTopic()
+	t.Topic = kmsg.StringPtr(name)
+	if rng.Intn(3) > 0 {
+		rng.Read(t.TopicID[:])
+	} // else zero: the store derives an id from the name
+	t.IsInternal = rng.Intn(5) == 0
+	errored := rng.Intn(100) < 25
+	if errored {
+		t.ErrorCode = c28TopicErrs[rng.Intn(len(c28TopicErrs))]
 	}
-	return m
+	np := rng.Intn(6)
+	if errored && rng.Intn(2) == 0 {
+		np = 0
+	}
+	for p := 0; p < np; p++ {
+		t.Partitions = append(t.Partitions, c28GenPartition(rng, int32(p), brokerIDs, pickNodes))
+	}
+	return t
+}
+
+func c28GenPartition(rng *rand.Rand, p int32, brokerIDs []int32, pickNodes func() []int32) kmsg.MetadataResponseTopicPartition {
+	nb := len(brokerIDs)
+	mp := kmsg.NewMetadataResponseTopicPartition()
+	mp.Partition = p
+	if rng.Intn(10) == 0 {
+		mp.Partition = p*3 + 1 // sparse partition numbers
+	}
+	if rng.Intn(100) < 15 {
+		mp.ErrorCode = c28PartErrs[rng.Intn(len(c28PartErrs))]
+	}
+	mp.Leader = brokerIDs[rng.Intn(nb)]
+	if mp.ErrorCode != 0 && rng.Intn(2) == 0 {
+		mp.Leader = -1
+	}
+	switch rng.Intn(4) {
+	case 0:
+		mp.LeaderEpoch = -1
+	case 1:
+		mp.LeaderEpoch = 0
+	default:
+		mp.LeaderEpoch = int32(rng.Intn(100000))
+	}
+	mp.Replicas = pickNodes()
+	mp.ISR = pickNodes()
+	if rng.Intn(4) == 0 {
+		mp.OfflineReplicas = pickNodes()
+	}
+	return mp
 }
 
 func c28DescribeSnapshot(m *metadata.ClusterMetadata) map[string]any {
@@ -406,6 +418,90 @@ func c28BuildMetaReq(mr *c28MetaReq) *kmsg.MetadataRequest {
 	return req
 }
 
+// c28Expected asks the store the question the request asks: the topics the
+// cluster metadata holds for it right now (as views at the request version) and
+// the requested topic ids it does not know.
+func c28Expected(store metadata.Store, mr *c28MetaReq) ([]c28TopicView, map[[16]byte]bool, error) {
+	var expected []c28TopicView
+	unknownIDs := map[[16]byte]bool{}
+	switch mr.Kind {
+	case "all":
+		all, err := store.Metadata(context.Background(), nil)
+		if err != nil {
+			return nil, nil, err
+		}
+		for _, tp := range all.Topics {
+			expected = append(expected, c28View(tp, mr.Version))
+		}
+	case "names":
+		ans, err := store.Metadata(context.Background(), mr.Names)
+		if err != nil {
+			return nil, nil, err
+		}
+		for _, tp := range ans.Topics {
+			expected = append(expected, c28View(tp, mr.Version))
+		}
+	case "ids":
+		all, err := store.Metadata(context.Background(), nil)
+		if err != nil {
+			return nil, nil, err
+		}
+		for _, id := range mr.ids {
+			found := false
+			for _, tp := range all.Topics {
+				if tp.TopicID == id {
+					expected = append(expected, c28View(tp, mr.Version))
+					found = true
+				}
+			}
+			if !found {
+				unknownIDs[id] = true
+			}
+		}
+	}
+	return expected, unknownIDs, nil
+}
+
+// c28JudgeMetadataReply is the oracle for one decoded ready Metadata reply:
+// only the proxy as broker / controller / leader / replica, and the topology
+// the store answers for the same question.
+func c28JudgeMetadataReply(resp *kmsg.MetadataResponse, mr *c28MetaReq, expected []c28TopicView, unknownIDs map[[16]byte]bool, px c28Proxy) ([]c28Finding, []c28TopicView) {
+	var fs []c28Finding
+	// brokers: only the proxy, and at least it
+	if len(resp.Brokers) == 0 {
+		fs = append(fs, c28Finding{"metadata_names_no_broker", "ready metadata reply lists no broker at all"})
+	}
+	for _, b := range resp.Brokers {
+		if b.NodeID != 0 || b.Host != px.Host || b.Port != px.Port {
+			fs = append(fs, c28Finding{"broker_list_not_only_the_proxy", fmt.Sprintf("broker list has %d@%q:%d; the proxy is 0@%q:%d", b.NodeID, b.Host, b.Port, px.Host, px.Port)})
+		}
+	}
+	if len(resp.Brokers) > 1 {
+		fs = append(fs, c28Finding{"broker_list_not_only_the_proxy", fmt.Sprintf("broker list has %d entries", len(resp.Brokers))})
+	}
+	if mr.Version >= 1 && resp.ControllerID != 0 {
+		fs = append(fs, c28Finding{"controller_not_the_proxy", fmt.Sprintf("controller id %d", resp.ControllerID)})
+	}
+	var nodeFs []c28Finding
+	for ti := range resp.Topics {
+		var one []c28Finding
+		c28WalkNodes(reflect.ValueOf(&resp.Topics[ti]), fmt.Sprintf("Topics[%d]", ti), px, &one)
+		if len(one) > 0 && resp.Topics[ti].ErrorCode != 0 {
+			for i := range one {
+				one[i].Class = "errored_topic_partitions_name_real_brokers"
+			}
+		}
+		nodeFs = append(nodeFs, one...)
+	}
+	fs = append(fs, nodeFs...)
+	var got []c28TopicView
+	for _, tp := range resp.Topics {
+		got = append(got, c28View(tp, mr.Version))
+	}
+	fs = append(fs, c28Topology(expected, got, unknownIDs, mr.Version)...)
+	return fs, got
+}
+
 // ---------------------------------------------------------------- the ready leg
 
 const c28RuleReady = "READY: per generated snapshot (1-4 real brokers with node ids 0..6, 0-6 topics of which ~25% carry a topic error with or without partitions, explicit or derived topic ids, partition errors, leader -1, leader epochs -1/0/n, sparse partition numbers) a ready proxy answers Metadata all/by-name/by-id at v0..v12 and FindCoordinator v3 on one connection; the decoded reply must list exactly the advertised (node 0, host, port) as broker(s), controller 0 (v1+), every node-naming field (Leader, Replicas, ISR, OfflineReplicas, NodeID/Host/Port triples, found by reflection over the kmsg struct) must be 0 or -1, and the multiset of topics (name, id at v10+, error code, partitions as partition/error/leader-epoch at v7+) must equal what the store answers for the same question (unknown topic ids: one errored, partition-less entry each); non-trivial = snapshot has a topic with partitions and the request selected at least one such topic"
@@ -526,34 +622,9 @@ func c28Ready(t *testing.T, r *verifkit.Run) {
 				}
 			}
 			// what the cluster metadata answers to this question
-			var expected []c28TopicView
-			unknownIDs := map[[16]byte]bool{}
-			switch mr.Kind {
-			case "all":
-				for _, tp := range all.Topics {
-					expected = append(expected, c28View(tp, mr.Version))
-				}
-			case "names":
-				ans, err := store.Metadata(context.Background(), mr.Names)
-				if err != nil {
-					t.Fatalf("store: %v", err)
-				}
-				for _, tp := range ans.Topics {
-					expected = append(expected, c28View(tp, mr.Version))
-				}
-			case "ids":
-				for _, id := range mr.ids {
-					found := false
-					for _, tp := range all.Topics {
-						if tp.TopicID == id {
-							expected = append(expected, c28View(tp, mr.Version))
-							found = true
-						}
-					}
-					if !found {
-						unknownIDs[id] = true
-					}
-				}
+			expected, unknownIDs, err := c28Expected(store, mr)
+			if err != nil {
+				t.Fatalf("store: %v", err)
 			}
 			replay := map[string]any{"case": ci, "proxy": px, "snapshot": c28DescribeSnapshot(&snap), "request": mr}
 			payload, st, err := cc.roundTrip(pwEncodeRequest(c28BuildMetaReq(mr), corr, "verif-c28"))
@@ -580,39 +651,7 @@ func c28Ready(t *testing.T, r *verifkit.Run) {
 				continue
 			}
 			_ = gotCorr
-			var fs []c28Finding
-			// brokers: only the proxy, and at least it
-			if len(resp.Brokers) == 0 {
-				fs = append(fs, c28Finding{"metadata_names_no_broker", "ready metadata reply lists no broker at all"})
-			}
-			for _, b := range resp.Brokers {
-				if b.NodeID != 0 || b.Host != px.Host || b.Port != px.Port {
-					fs = append(fs, c28Finding{"broker_list_not_only_the_proxy", fmt.Sprintf("broker list has %d@%q:%d; the proxy is 0@%q:%d", b.NodeID, b.Host, b.Port, px.Host, px.Port)})
-				}
-			}
-			if len(resp.Brokers) > 1 {
-				fs = append(fs, c28Finding{"broker_list_not_only_the_proxy", fmt.Sprintf("broker list has %d entries", len(resp.Brokers))})
-			}
-			if mr.Version >= 1 && resp.ControllerID != 0 {
-				fs = append(fs, c28Finding{"controller_not_the_proxy", fmt.Sprintf("controller id %d", resp.ControllerID)})
-			}
-			var nodeFs []c28Finding
-			for ti := range resp.Topics {
-				var one []c28Finding
-				c28WalkNodes(reflect.ValueOf(&resp.Topics[ti]), fmt.Sprintf("Topics[%d]", ti), px, &one)
-				if len(one) > 0 && resp.Topics[ti].ErrorCode != 0 {
-					for i := range one {
-						one[i].Class = "errored_topic_partitions_name_real_brokers"
-					}
-				}
-				nodeFs = append(nodeFs, one...)
-			}
-			fs = append(fs, nodeFs...)
-			var got []c28TopicView
-			for _, tp := range resp.Topics {
-				got = append(got, c28View(tp, mr.Version))
-			}
-			fs = append(fs, c28Topology(expected, got, unknownIDs, mr.Version)...)
+			fs, got := c28JudgeMetadataReply(resp, mr, expected, unknownIDs, px)
 			seen := map[string]bool{}
 			for _, f := range fs {
 				if seen[f.Class] {
